@@ -340,7 +340,7 @@ struct Gen {
   }
 
   void build() {
-    family = r.below(7);      // 0 boxed, 1 half-open boxes, 2 equality-heavy boxed, 3 degenerate, 4 objective changes, 5 tiny parity, 6 knapsack
+    family = r.below(8);      // 7: integer variables first, is_satisfiable() in the middle (it leaves branch rows in the object), then more rows / new objective; 0 boxed, 1 half-open boxes, 2 equality-heavy boxed, 3 degenerate, 4 objective changes, 5 tiny parity, 6 knapsack
     dimension_type n = r.chance(1, 6) ? 1 : r.chance(3, 5) ? 2 : 3;
     if (family == 5) n = 1 + r.below(2);
     if (family == 6) { knapsack(2 + r.below(2)); return; }
@@ -354,7 +354,7 @@ struct Gen {
     std::set<dimension_type> vs;
     if (r.chance(1, 2)) for (dimension_type i = 0; i < n; ++i) vs.insert(i);
     else { for (dimension_type i = 0; i < n; ++i) if (r.chance(1, 2)) vs.insert(i); if (vs.empty()) vs.insert(r.below(n)); }
-    bool ints_first = r.chance(1, 3);
+    bool ints_first = family == 7 || r.chance(1, 3);
     if (ints_first) add_ints(vs);
     // boxes
     hidden.assign(n, 0);
@@ -383,13 +383,14 @@ struct Gen {
     for (unsigned i = 0; i < half; ++i) add_con(rs[i]);
     set_obj(gen_obj());
     set_mode(r.chance(1, 2));
-    if (family == 4 || r.chance(1, 4)) {
+    if (family == 7) observe(1);
+    else if (family == 4 || r.chance(1, 4)) {
       // an intermediate solve: the later constraints / objective are processed incrementally
       observe(r.chance(2, 3) ? 0 : 1);
     }
     for (unsigned i = half; i < rows; ++i) add_con(rs[i]);
     if (!ints_first) add_ints(vs);
-    if (family == 4) {
+    if (family == 4 || family == 7) {
       if (r.chance(1, 2)) observe(0);
       if (r.chance(2, 3)) set_obj(gen_obj());
       if (r.chance(1, 2)) set_mode(r.chance(1, 2));
